@@ -34,12 +34,13 @@ def _sb(r):
 
 
 # ------------------------------------------------------------------------------------------
-def laws_task(cone, W, tier, symbolic_W=False, m=None, K=None):
+def laws_task(cone, W, tier, symbolic_W=False, m=None, K=None, int_W=False):
     vo, oc, uu = _mods()
     proxy = NpProxy()
     ex = Explorer(f"order_laws[{cone}]", query_timeout_ms=120000)
     if not symbolic_W:
-        W = np.asarray(W, dtype=float)
+        # int_W: the cone matrix is given with an integer dtype (as in the class docstring)
+        W = np.asarray(W, dtype=int if int_W else float)
         K, m = W.shape
 
     def body(ctx):
@@ -92,7 +93,7 @@ def laws_task(cone, W, tier, symbolic_W=False, m=None, K=None):
                         (("a", az), ("b", bz), ("c", cz), ("t", zs(t)))}
                 vals["lam"] = model_value(mdl, lam.e)
                 Wc = [[model_value(mdl, e) for e in row] for row in Wq]
-                ex.candidate(name, {"kind": "law", "law": name, "W": frac_json(Wc),
+                ex.candidate(name, {"kind": "law", "law": name, "W": frac_json(Wc), "int_W": bool(int_W),
                                     **{k: frac_json(v) for k, v in vals.items()}},
                              {"cone": cone, "law": name})
                 return
@@ -114,6 +115,8 @@ def replay(case):
     F = lambda v: [Fraction(x) for x in from_frac_json(v)]  # noqa
     if case["kind"] == "law":
         W = np.array([[float(Fraction(x)) for x in row] for row in from_frac_json(case["W"])])
+        if case.get("int_W"):
+            W = W.astype(int)
         Wex = [[Fraction(float(x)) for x in row] for row in W]
         order = make_order(W)
         a, b, c, t = (np.array([float(x) for x in F(case[k])]) for k in "abct")
@@ -456,6 +459,9 @@ def tasks(tier, seed):
     ts = []
     for cone, W in cone_set(tier, seed=seed):
         ts.append({"id": f"laws[{cone}]", "fn": "laws_task", "args": {"cone": cone, "W": W.tolist(), "tier": tier}})
+    for nm, Wi in (("int_orthant2", [[1, 0], [0, 1]]), ("int_skew2", [[2, -1], [-1, 3]]), ("int_3facets", [[1, 0], [0, 1], [1, 1]]),
+                   ("int_3d", [[2, -1, 0], [0, 2, -1], [-1, 0, 2]])):
+        ts.append({"id": f"laws[{nm}]", "fn": "laws_task", "args": {"cone": nm, "W": Wi, "tier": tier, "int_W": True}})
     ts.append({"id": "laws[symbolic 2x2]", "fn": "laws_task",
                "args": {"cone": "symbolic2x2", "W": None, "tier": tier, "symbolic_W": True, "m": 2, "K": 2},
                "weight": 5})
